@@ -182,6 +182,29 @@ TRUSTED_BASE = [
     "makes CPython raise AttributeError where they answer: not judged by the comparison) and evaluate / decide as translated for C02_whole; "
     "PARTIAL: proved on the generated text are the set delegation and the prologue, plus three kernel-evaluated witnesses; the index / seen "
     "set / sort / bucket part is tied by the differential runs (its generic lemmas are proved in Proofs/CompileTranslated.lean)",
+    "for the translated AUDIT LOGGER DecisionLogger.__init__ / _should_drop_by_sampling / log and _DEFAULT_REDACTIONS (C19; "
+    "harness/pytolean_logger.py on top of pytolean.py, lean/Rbacx/Model/PyLogger.lean, validated against the REAL DecisionLogger on every "
+    "C19 run by Run/SrcEvalLogger.lean — attributes after __init__, the sampling decision, dropped / the record handed to logging.Logger.log "
+    "with dict key order) the trusted readings are: TYPED FLOATS — an expression is float-typed by its syntax (float literal, float(E), "
+    "random.random(), min/max of float-typed arguments, an attribute __init__ assigns float(P) to, <rate map>.get(K, D) with a float-typed "
+    "D, a local all of whose assignments are float-typed) and a float is the model's FNum, its exact order embedding x*2^1074 (NaN apart, "
+    "±inf beyond every double): <=, <, >, >=, builtin min/max (b if b < a else a) depend on nothing else, no rounding is assumed; float(x) "
+    "of a float-typed x is x (an int / bool / numeric str rate is converted by CPython's float() in the harness; a value float() rejects "
+    "raises out of the method: not represented); random.random() is ONE draw parameter (call sites only in return statements, at most one "
+    "per statement; how many draws an execution makes is not represented); self.<attr> reads the field __init__'s translation builds, the "
+    "attributes logger / as_json / level and the parameters only they read belong to the EMIT effect and are left out; RAISING POINTS — in "
+    "`try: B except Exception: H` exactly the external apply_obligations(...) (a parameter PyVal → PyVal → PyVal → CallOut = returned v / "
+    "raised, each with the state of the first-argument object afterwards: the argument variable is re-bound to it) and the SIZE ORACLE "
+    "(`S = json.dumps(E, ensure_ascii=False); N = len(S.encode(\"utf-8\", \"surrogatepass\"))` as jsonSize : PyVal → Option Nat) can "
+    "raise, every other accepted statement is total on the domain (payload a dict whose env is a dict or falsy — dict() of another env "
+    "raises out of log); the handler runs with the variables as they are at the raising point; FRESH DICTS — dict(payload), dict(env or "
+    "{}) are values and safe[\"env\"] = v on a local bound once by dict(…) and used only as .get receiver / store target / rendering "
+    "argument is a functional update (Py.setItem: replaces in place else appends); what in-place redaction does to nested objects the "
+    "CALLER still holds is not part of the translated result (harness before/after checks); DIAGNOSTICS `dbg = getattr(self.logger, "
+    "\"debug\", None); if callable(dbg): dbg(<constants>)` are skipped; EMIT — `msg = json.dumps(safe, ensure_ascii=False)` / "
+    "`msg = f\"decision {safe}\"` under `if self.as_json` followed by the last statement `self.logger.log(self.level, msg)` is the result "
+    "`some safe`, `return` before it `none`; that the rendering raises for an unserialisable record with as_json=True, the destination and "
+    "the level stay by hand (the harness parses the captured message back)",
 ]
 
 
